@@ -96,58 +96,93 @@ Definition never_leaf : dslc pyval := DLeaf "Value" "is_instance" [] [].
 Section Subst.
   Variable doc : pyval.
 
-  (* None: the path argument is outside the typed fragment (no verdict) *)
-  Definition subst_arg (a : arg1) : option (res pyval) :=
+  (* None: outside the typed fragment (no verdict); Err: the path object cannot even be built
+     (that fails the construction of the rule); Ok (Err _): built but unresolvable on this document *)
+  Definition subst_arg (a : arg1) : option (res (res pyval)) :=
     match a with
-    | ALit v => Some (Ok v)
-    | APath _ pt => spec_get_term pt (Some doc) false
+    | ALit v => Some (Ok (Ok v))
+    | APath _ pt =>
+        match parse_pathterm pt with
+        | None => None
+        | Some st => match spath_of st with
+                     | Err e => Some (Err e)
+                     | Ok sp => Some (Ok (spec_get_data sp (Some doc) false))
+                     end
+        end
     end.
 
-  Fixpoint subst_args (l : list arg1) : option (res (list pyval)) :=
+  (* all arguments of one leaf, in evaluation order: (construction outcome of (all resolved?)) *)
+  Fixpoint subst_args (l : list arg1) : option (res (option (list pyval))) :=
     match l with
-    | [] => Some (Ok [])
+    | [] => Some (Ok (Some []))
     | a :: r =>
-        match subst_arg a, subst_args r with
-        | Some (Ok v), Some (Ok vs) => Some (Ok (v :: vs))
-        | Some (Err e), Some _ => Some (Err e)
-        | Some (Ok _), Some (Err e) => Some (Err e)
-        | _, _ => None
+        match subst_arg a with
+        | None => None
+        | Some (Err e) => Some (Err e)
+        | Some (Ok v) =>
+            match subst_args r with
+            | None => None
+            | Some (Err e) => Some (Err e)
+            | Some (Ok vs) =>
+                Some (Ok (match v, vs with Ok x, Some xs => Some (x :: xs) | _, _ => None end))
+            end
         end
     end.
 
-  Fixpoint subst_kw (l : list (string * arg1)) : option (res (list (string * pyval))) :=
+  Fixpoint subst_kw (l : list (string * arg1)) : option (res (option (list (string * pyval)))) :=
     match l with
-    | [] => Some (Ok [])
+    | [] => Some (Ok (Some []))
     | (k, a) :: r =>
-        match subst_arg a, subst_kw r with
-        | Some (Ok v), Some (Ok vs) => Some (Ok ((k, v) :: vs))
-        | Some (Err e), Some _ => Some (Err e)
-        | Some (Ok _), Some (Err e) => Some (Err e)
-        | _, _ => None
+        match subst_arg a with
+        | None => None
+        | Some (Err e) => Some (Err e)
+        | Some (Ok v) =>
+            match subst_kw r with
+            | None => None
+            | Some (Err e) => Some (Err e)
+            | Some (Ok vs) =>
+                Some (Ok (match v, vs with Ok x, Some xs => Some ((k, x) :: xs) | _, _ => None end))
+            end
         end
     end.
 
-  Definition has_path (l : list arg1) (kw : list (string * arg1)) : bool :=
-    existsb (fun a => match a with APath _ _ => true | _ => false end) l ||
-    existsb (fun ka => match snd ka with APath _ _ => true | _ => false end) kw.
-
-  (* an argument that cannot be resolved makes the comparison undefined: no datum satisfies it *)
-  Fixpoint subst_cond (t : dslc arg1) : option (dslc pyval) :=
+  (* an argument that cannot be resolved makes the comparison undefined: no datum satisfies it.
+     Construction errors of the leaf itself (arity) are left to the parse of the substituted term. *)
+  Fixpoint subst_cond (t : dslc arg1) : option (res (dslc pyval)) :=
     match t with
-    | DNull => Some DNull
-    | DBin o a b => match subst_cond a, subst_cond b with Some x, Some y => Some (DBin o x y) | _, _ => None end
+    | DNull => Some (Ok DNull)
+    | DBin o a b =>
+        match subst_cond a with
+        | None => None
+        | Some (Err e) => Some (Err e)
+        | Some (Ok x) => match subst_cond b with
+                         | None => None
+                         | Some (Err e) => Some (Err e)
+                         | Some (Ok y) => Some (Ok (DBin o x y))
+                         end
+        end
     | DLeaf cls m pos kw =>
-        match subst_args pos, subst_kw kw with
-        | Some (Ok p), Some (Ok k) => Some (DLeaf cls m p k)
-        | Some _, Some _ => Some never_leaf
-        | _, _ => None
+        match subst_args pos with
+        | None => None
+        | Some (Err e) => Some (Err e)
+        | Some (Ok p) =>
+            match subst_kw kw with
+            | None => None
+            | Some (Err e) => Some (Err e)
+            | Some (Ok k) =>
+                match p, k with
+                | Some p', Some k' => Some (Ok (DLeaf cls m p' k'))
+                | _, _ => Some (Ok never_leaf)
+                end
+            end
         end
     end.
 End Subst.
 
 Definition spec_rule_term (rt : ruleterm) (doc : pyval) : option (res pyval) :=
   match parse_pathterm (rt_path_t rt), subst_cond doc (rt_cond_t rt) with
-  | Some sp, Some c =>
+  | Some sp, Some (Err e) => match spath_of sp with Err e' => Some (Err e') | Ok _ => Some (Err e) end
+  | Some sp, Some (Ok c) =>
       match parse_tree c with
       | Some t => if qtree_ok t
                   then spec_rule_test {| sr_path := sp; sr_cond := t; sr_cast := rt_cast_t rt |} doc
@@ -186,6 +221,25 @@ Fixpoint sinsert_rule (x : spath * srule) (l : list (spath * srule)) : list (spa
   end.
 Definition ssort_rules (rs : list (spath * srule)) : list (spath * srule) := fold_right sinsert_rule [] rs.
 
+(* failure values of rules judged on the shared copy are live references into it: a container
+   value shows the final state of the copy *)
+Definition spec_refresh_failure (final : pyval) (f : pyval) : pyval :=
+  match f with
+  | VTuple [i; (VList _ | VDict _) as v; VTuple cp; b] =>
+      match get_at final cp with Some v' => VTuple [i; v'; VTuple cp; b] | None => f end
+  | _ => f
+  end.
+Definition spec_refresh_verdict (final : pyval) (r : srule) (v : pyval) : pyval :=
+  match sr_cast r, v with
+  | _ :: _, VTuple [a; b; c; VList fs] => VTuple [a; b; c; VList (map (spec_refresh_failure final) fs)]
+  | _, _ => v
+  end.
+Fixpoint spec_refresh (final : pyval) (rs : list (spath * srule)) (vs : list pyval) : list pyval :=
+  match rs, vs with
+  | (_, r) :: rs', v :: vs' => spec_refresh_verdict final r v :: spec_refresh final rs' vs'
+  | _, _ => []
+  end.
+
 Definition verdict_valid (v : pyval) : bool := match v with VTuple (VBool b :: _) => b | _ => false end.
 Definition verdict_tested (v : pyval) : bool := match v with VTuple (_ :: VBool b :: _) => b | _ => false end.
 Definition verdict_nfail (v : pyval) : Z := match v with VTuple (_ :: _ :: VInt n :: _) => n | _ => 0 end.
@@ -215,7 +269,8 @@ Definition spec_validate (rs : list srule) (doc : pyval) : option (res pyval) :=
       if negb (forallb (fun pr => rule_in_domain (fst pr) (snd pr)) prs) then None
       else if negb (nonempty_container doc) then Some (Err TypeError)
       else
-        let '(vs, copy) := spec_run_rules (ssort_rules prs) doc doc in
+        let '(vs0, copy) := spec_run_rules (ssort_rules prs) doc doc in
+        let vs := spec_refresh copy (ssort_rules prs) vs0 in
         Some (Ok (VTuple [VBool (forallb verdict_valid vs);
                           VInt (fold_right (fun v n => verdict_nfail v + n) 0 vs);
                           VInt (Z.of_nat (List.length (filter verdict_tested vs)));
@@ -227,7 +282,7 @@ Fixpoint parse_rules (rts : list ruleterm) (doc : pyval) : option (list srule) :
   | [] => Some []
   | rt :: rest =>
       match parse_pathterm (rt_path_t rt), subst_cond doc (rt_cond_t rt), parse_rules rest doc with
-      | Some sp, Some c, Some xs =>
+      | Some sp, Some (Ok c), Some xs =>
           match parse_tree c with
           | Some t => if qtree_ok t then Some ({| sr_path := sp; sr_cond := t; sr_cast := rt_cast_t rt |} :: xs) else None
           | None => None
